@@ -1,4 +1,7 @@
 import WfProofs.CliConfig
+import WfModel.GenCliConfigSql
+import WfProofs.CliConfigHistory
+import WfProofs.CliConfigHeld
 /-!
 # C37 — llamactl never activates a profile the user did not pick in that environment
 
@@ -27,6 +30,87 @@ theorem C37_source_shape :
     Gen.CliConfig.profilesPrimaryKey = "name,api_url" ∧
     Gen.CliConfig.keylessProfileName = "default" ∧ Gen.CliConfig.createTokenSelects = true := by
   decide
+
+/-- The SQL the model `WfModel/CliConfig.lean` was read from: every statement `ConfigManager`
+executes, as (method, verb, table, WHERE conjuncts, SET columns / literal key / ORDER BY / LIMIT). -/
+def C37_expectedSql : List (String × String × String × String × String) := [
+  ("create_or_update_environment", "INSERT OR REPLACE", "environments", "", ""),
+  ("create_profile", "INSERT", "profiles", "", ""),
+  ("delete_environment", "DELETE", "environments", "api_url", ""),
+  ("delete_environment", "DELETE", "profiles", "api_url", ""),
+  ("delete_environment", "DELETE", "settings", "key='current_profile'", ""),
+  ("delete_environment", "INSERT OR REPLACE", "settings", "", "values='current_environment_api_url'"),
+  ("delete_environment", "SELECT", "environments", "api_url", ""),
+  ("delete_environment", "SELECT", "settings", "key='current_environment_api_url'", ""),
+  ("delete_profile", "DELETE", "profiles", "name&api_url", ""),
+  ("get_current_environment", "SELECT", "environments", "api_url", ""),
+  ("get_current_environment", "SELECT", "settings", "key='current_environment_api_url'", ""),
+  ("get_environment", "SELECT", "environments", "api_url", ""),
+  ("get_profile", "SELECT", "profiles", "name&api_url", ""),
+  ("get_profile_by_api_key", "SELECT", "profiles", "api_url&api_key", "limit=1"),
+  ("get_profile_by_device_user_id", "SELECT", "profiles", "api_url&JSON_EXTRACT(device_oidc,'$.user_id')", "limit=1"),
+  ("get_profile_by_id", "SELECT", "profiles", "id", ""),
+  ("get_settings_current_profile_name", "SELECT", "settings", "key='current_profile'", ""),
+  ("list_environments", "SELECT", "environments", "", "order=api_url"),
+  ("list_profiles", "SELECT", "profiles", "api_url", "order=name"),
+  ("set_project", "UPDATE", "profiles", "name&api_url", "set=project_id"),
+  ("set_settings_current_environment", "INSERT OR REPLACE", "settings", "", "values='current_environment_api_url'"),
+  ("set_settings_current_profile", "DELETE", "settings", "key='current_profile'", ""),
+  ("set_settings_current_profile", "INSERT OR REPLACE", "settings", "", "values='current_profile'"),
+  ("update_profile", "UPDATE", "profiles", "id", "set=name,api_url,project_id,api_key,api_key_id,device_oidc")]
+
+/-- The statements `ConfigManager` executes still have the shape the model was read from
+(regenerated from `/repo` on every run), and in particular: the only `DELETE` on `settings` names
+`current_profile` — the row `current_environment_api_url` is never removed, which is why the
+model's current environment is a `String` and not an `Option`; every write to `settings` names one
+of the two keys literally; and a `profiles` row is addressed by `(name, api_url)`, by `id`, or per
+environment — never by its name alone. -/
+theorem C37_source_shape_sql :
+    Gen.CliConfigSql.sqlStatements = C37_expectedSql ∧
+    (∀ st ∈ Gen.CliConfigSql.sqlStatements, st.2.2.1 = "settings" → st.2.1 = "DELETE" →
+      st.2.2.2.1 = "key='current_profile'") ∧
+    (∀ st ∈ Gen.CliConfigSql.sqlStatements, st.2.2.1 = "settings" → st.2.1 ≠ "SELECT" → st.2.1 ≠ "DELETE" →
+      st.2.1 = "INSERT OR REPLACE" ∧
+      (st.2.2.2.2 = "values='current_profile'" ∨ st.2.2.2.2 = "values='current_environment_api_url'")) ∧
+    (∀ st ∈ Gen.CliConfigSql.sqlStatements, st.2.2.1 = "profiles" → st.2.1 ≠ "INSERT" →
+      st.2.2.2.1 ∈ ["name&api_url", "id", "api_url", "api_url&api_key", "api_url&JSON_EXTRACT(device_oidc,'$.user_id')"]) ∧
+    Gen.CliConfigSql.profilesIdUnique = true := by
+  refine ⟨by decide, by decide, by decide, by decide, by decide⟩
+
+/-- How an `AuthService` is tied to an environment (regenerated): every call into a `ConfigManager`
+method that takes an environment passes the service's own binding `self.env.api_url` — never the
+current environment — which is what `stepHeld` models with the binding as a parameter; the calls
+without an environment argument are `set_settings_current_profile` (the selection is a bare name),
+`update_profile` and `get_profile_by_id` (by id, in any environment: `Op.refresh`).
+`EnvService.current_auth_service()` binds a fresh service to the current environment, read from
+the store on every call (the diagonal `step`); `ConfigManager.delete_profile` clears the selection
+when the deleted *name* equals it, whatever the environment (`stepHeld … (.deleteProfile _)`), and
+an empty selected name counts as no selection (`active`). -/
+theorem C37_source_shape_binding :
+    Gen.CliConfigSql.authServiceCalls = [
+      ("create_or_update_profile_from_oidc", "create_profile", "self.env.api_url"),
+      ("create_or_update_profile_from_oidc", "get_profile_by_device_user_id", "self.env.api_url"),
+      ("create_or_update_profile_from_oidc", "set_settings_current_profile", ""),
+      ("create_or_update_profile_from_oidc", "update_profile", ""),
+      ("create_profile_from_token", "create_profile", "self.env.api_url"),
+      ("create_profile_from_token", "set_settings_current_profile", ""),
+      ("delete_profile", "delete_profile", "self.env.api_url"),
+      ("get_current_profile", "get_current_profile", "self.env.api_url"),
+      ("get_profile", "get_profile", "self.env.api_url"),
+      ("get_profile_by_id", "get_profile_by_id", ""),
+      ("list_profiles", "list_profiles", "self.env.api_url"),
+      ("refresh_to_db", "update_profile", ""),
+      ("set_current_profile", "set_settings_current_profile", ""),
+      ("set_project", "set_project", "self.env.api_url"),
+      ("update_profile", "update_profile", "")] ∧
+    (∀ c ∈ Gen.CliConfigSql.authServiceCalls, c.2.1 ∈ Gen.CliConfigSql.envTakingMethods → c.2.2 = "self.env.api_url") ∧
+    (∀ c ∈ Gen.CliConfigSql.authServiceCalls, c.2.1 ∉ Gen.CliConfigSql.envTakingMethods →
+      c.2.1 ∈ ["set_settings_current_profile", "update_profile", "get_profile_by_id"]) ∧
+    Gen.CliConfigSql.currentAuthServiceBoundToCurrent = true ∧
+    Gen.CliConfigSql.currentEnvironmentReadThrough = true ∧
+    Gen.CliConfigSql.deleteProfileClearsOnName = true ∧
+    Gen.CliConfigSql.currentProfileNameTruthy = true := by
+  refine ⟨by decide, by decide, by decide, by decide, by decide, by decide, by decide⟩
 
 /-- **C37 (strong form).** After any sequence of configuration operations the current environment is
 a known environment or the built-in default, and the active profile
@@ -163,3 +247,177 @@ theorem C37_each_clear_needed :
                 .envAdd Gen.CliConfig.defaultUrl true none]).2
                 ⟨0, "default", Gen.CliConfig.defaultUrl, "p", none, none, none⟩ (by decide)
     exact absurd this.2.2 (by decide)
+
+/-! ## Whole-history statements added by the extension -/
+
+/-- Profile ids (`idx_profiles_id`, the uuid of the code, the creation counter of the model) are
+pairwise different after every history, and all lie below the creation counter: "the profile with
+id `i`" names at most one row, in whatever environment. -/
+theorem C37_unique_ids (ops : List Op) :
+    ((run srcCfg (init srcCfg) ops).profiles.map (·.pid)).Nodup ∧
+    ∀ p ∈ (run srcCfg (init srcCfg) ops).profiles, p.pid < (run srcCfg (init srcCfg) ops).nextId := by
+  have h := ids_run srcCfg ops _ (ids_init srcCfg)
+  refine ⟨?_, h.fresh⟩
+  rw [List.Nodup, List.pairwise_map]
+  exact h.nodup
+
+example : ((run srcCfg (init srcCfg)
+    [.createToken "p1" none, .envAdd "http://b" false none, .createToken "p2" none, .deleteProfile "default",
+     .createToken "p3" none, .destroy, .createToken "p4" none]).profiles.map (·.pid)) = [3] := by decide
+
+/-- **The active profile is the very row the latest pick designated, and has been active ever since.**
+If a profile `p` is active after a history, the history splits as `pre ++ op :: post` where `op` is a
+pick event of `p`'s name made while `p`'s environment was current, and from the state right after
+`op` through every later state (`Kept`, spelled out by `C37_kept_means`): `p`'s environment is the
+current one, the row with `p`'s id, name and environment is the active profile, and no further
+operation is a pick event.  So between the pick and now there was no moment at which another
+environment was current, another profile (or none) was active, or the id behind the name changed
+(e.g. by deleting and re-creating a same-named profile). -/
+theorem C37_active_continuously_since_pick (ops : List Op) (p : Profile)
+    (h : active (run srcCfg (init srcCfg) ops) = some p) :
+    ∃ pre op post, ops = pre ++ op :: post ∧
+      picks srcCfg (run srcCfg (init srcCfg) pre) op = some p.name ∧
+      (run srcCfg (init srcCfg) pre).curEnv = p.env ∧
+      Kept srcCfg p.name p.env p.pid (step srcCfg (run srcCfg (init srcCfg) pre) op).1 post := by
+  rcases active_since C37_source_shape.1 ops _ (inv_init C37_source_shape.1) p h with hk | hex
+  · obtain ⟨_, q, hq, _⟩ := hk.head
+    simp [active, init] at hq
+  · exact hex
+
+/-- non-vacuity: a profile selected, then seven operations that are no pick events and change
+neither the environment nor the selection (among them a token refresh by id, a probe, deleting
+another environment and another profile); it is kept active throughout. -/
+example : Kept srcCfg "default" "http://b" 1
+    (run srcCfg (init srcCfg) [.createToken "p1" none, .envAdd "http://b" false none, .createToken "p2" none,
+       .createOidc "p3" "u1" "a@x.io" "t0", .select "default"])
+    [.setProject "default" "p9", .refresh 2 "u1" "t1", .probe true none, .envDelete Gen.CliConfig.defaultUrl,
+     .deleteProfile "a@x.io", .updateKey "default" (some "k") none, .envSwitch "http://nowhere"] := by
+  decide
+
+/-- What `Kept` says, with explicit quantifiers: at every cut `mid ++ rest` of the operations the
+environment `e` is current and the row `(pid, n, e)` is the active profile, and the operation
+following the cut (if any) is no pick event. -/
+theorem C37_kept_means (n e : String) (pid : Nat) (s : State) (ops : List Op) :
+    Kept srcCfg n e pid s ops ↔
+      ∀ mid rest, ops = mid ++ rest →
+        (run srcCfg s mid).curEnv = e ∧
+        (∃ q, active (run srcCfg s mid) = some q ∧ q.pid = pid ∧ q.name = n ∧ q.env = e) ∧
+        ∀ o rest', rest = o :: rest' → picks srcCfg (run srcCfg s mid) o = none := by
+  rw [kept_iff]
+  constructor
+  · intro h mid rest hmr; exact ⟨(h mid rest hmr).1.1, (h mid rest hmr).1.2, (h mid rest hmr).2⟩
+  · intro h mid rest hmr; exact ⟨⟨(h mid rest hmr).1, (h mid rest hmr).2.1⟩, (h mid rest hmr).2.2⟩
+
+example : ¬ Kept srcCfg "default" Gen.CliConfig.defaultUrl 0
+    (run srcCfg (init srcCfg) [.createToken "p1" none]) [.deleteProfile "default", .createToken "p2" none] := by
+  decide
+
+/-- **`get_current_environment()` never makes up an environment.**  After every history what it
+returns has the current URL and is either a stored row or — only when the default URL is current
+and has no row — the built-in `DEFAULT_ENVIRONMENT`; its third branch (an unauthenticated
+`Environment` invented for a URL that is neither stored nor the default) is dead code on all
+reachable configurations. -/
+theorem C37_current_environment_real (ops : List Op) :
+    (currentEnvironment srcCfg (run srcCfg (init srcCfg) ops)).url = (run srcCfg (init srcCfg) ops).curEnv ∧
+    (currentEnvironment srcCfg (run srcCfg (init srcCfg) ops) ∈ (run srcCfg (init srcCfg) ops).envs ∨
+     (getEnv (run srcCfg (init srcCfg) ops) (run srcCfg (init srcCfg) ops).curEnv = none ∧
+      (run srcCfg (init srcCfg) ops).curEnv = Gen.CliConfig.defaultUrl ∧
+      currentEnvironment srcCfg (run srcCfg (init srcCfg) ops) =
+        ⟨Gen.CliConfig.defaultUrl, Gen.CliConfig.defaultRequiresAuth, none⟩)) :=
+  currentEnvironment_real (inv_run C37_source_shape.1 ops _ (inv_init C37_source_shape.1))
+
+/-- non-vacuity of the second alternative: the default row deleted while current. -/
+example : getEnv (run srcCfg (init srcCfg) [.envDelete Gen.CliConfig.defaultUrl, .createToken "p" none])
+    Gen.CliConfig.defaultUrl = none := by decide
+
+/-! ## `AuthService` objects held across environment changes (model M16b)
+
+Everything above is about histories in which each profile operation goes through a fresh
+`EnvService.current_auth_service()` — what every `llamactl` command does.  The class itself is
+bound to the environment it was constructed for (`stepHeld`, binding as a parameter). -/
+
+/-- The held-service model extends the fresh one: with the binding equal to the current
+environment it is the same step, the same pick event, and the same run. -/
+theorem C37_held_extends_fresh (s : State) (op : Op) (ops : List Op) :
+    stepHeld srcCfg s s.curEnv op = step srcCfg s op ∧
+    picksAt srcCfg s s.curEnv op = picks srcCfg s op ∧
+    runH srcCfg s (ops.map HOp.fresh) = run srcCfg s ops :=
+  ⟨stepHeld_fresh _ _ _, picksAt_fresh _ _ _, runH_fresh _ _ _⟩
+
+example : stepHeld srcCfg (run srcCfg (init srcCfg) [.envUpsert "http://b" false none]) "http://b" (.createToken "p" none)
+    ≠ step srcCfg (run srcCfg (init srcCfg) [.envUpsert "http://b" false none]) (.createToken "p" none) := by decide
+
+/-- What `pickedHere` computes: the history contains an operation that selected or created the
+name `n`, through a service of environment `e`, while `e` was the current environment. -/
+theorem C37_pickedHere_means (n e : String) (s : State) (hops : List HOp) :
+    pickedHere srcCfg n e s hops = true ↔
+      ∃ pre h post, hops = pre ++ h :: post ∧ picksH srcCfg (runH srcCfg s pre) h = some n ∧
+        boundOf (runH srcCfg s pre) h = e ∧ (runH srcCfg s pre).curEnv = e :=
+  pickedHere_iff srcCfg n e hops s
+
+/-- The property's second clause over histories with arbitrary service bindings: the active
+profile is a profile of the current environment that was selected or created, through a
+service of that environment, while that environment was current. -/
+def C37_statement_held_services : Prop :=
+  ∀ (hops : List HOp) (p : Profile), active (runH srcCfg (init srcCfg) hops) = some p →
+    p.env = (runH srcCfg (init srcCfg) hops).curEnv ∧ pickedHere srcCfg p.name p.env (init srcCfg) hops = true
+
+/-- For fresh services this is exactly what `C37_active_was_picked_here` proves. -/
+theorem C37_statement_fresh_services (ops : List Op) (p : Profile)
+    (h : active (run srcCfg (init srcCfg) ops) = some p) :
+    p.env = (run srcCfg (init srcCfg) ops).curEnv ∧
+    pickedHere srcCfg p.name p.env (init srcCfg) (ops.map HOp.fresh) = true := by
+  obtain ⟨_, henv, pre, op, post, hops, hpick, hcur⟩ := C37_active_was_picked_here ops p h
+  refine ⟨henv, (pickedHere_iff _ _ _ _ _).mpr ⟨pre.map HOp.fresh, HOp.fresh op, post.map HOp.fresh, ?_, ?_, ?_, ?_⟩⟩
+  · rw [hops]; simp
+  · rw [runH_fresh, picksH_fresh]; exact hpick
+  · rw [runH_fresh]; simp only [boundOf, HOp.fresh, Option.getD_none]; rw [hcur, henv]
+  · rw [runH_fresh, hcur, henv]
+
+/-- **Refuted for held services.**  A stored environment `b` that is not current; a service
+bound to `b` creates a profile there (nothing active: `b` is not current); the user switches to
+`b` (selection cleared); a service still bound to the default environment selects the name
+`default`: now `b`'s profile `default` is active, and no operation ever selected or created that
+name through a service of `b` while `b` was current.  Needs two overlapping `llamactl`
+processes (or a program holding `AuthService` objects); no single command does this. -/
+theorem C37_held_services_refuted : ¬ C37_statement_held_services := by
+  intro h
+  have := (h [⟨none, .envUpsert "http://b" false none⟩, ⟨some "http://b", .createToken "q" none⟩,
+              ⟨none, .envSwitch "http://b"⟩, ⟨some Gen.CliConfig.defaultUrl, .select "default"⟩]
+            ⟨0, "default", "http://b", "q", none, none, none⟩ (by decide)).2
+  exact absurd this (by decide)
+
+/-- **What remains true with held services.**  If every operation that can select or create
+(`create_profile_from_token`, `create_or_update_profile_from_oidc`, `set_current_profile`,
+`select_any_profile`) goes through a service of the environment current at that moment —
+services bound to other environments being used only for `delete_profile`, `set_project`,
+`update_profile` — then after every history the current environment is known or the default, and
+the active profile is a stored profile of the current environment that was selected or created
+through a service of that environment while it was current. -/
+theorem C37_held_services_partial (hops : List HOp) (hf : FreshPicks srcCfg (init srcCfg) hops) :
+    ((runH srcCfg (init srcCfg) hops).curEnv = Gen.CliConfig.defaultUrl ∨
+      ∃ r ∈ (runH srcCfg (init srcCfg) hops).envs, r.url = (runH srcCfg (init srcCfg) hops).curEnv) ∧
+    ∀ p, active (runH srcCfg (init srcCfg) hops) = some p →
+      p ∈ (runH srcCfg (init srcCfg) hops).profiles ∧ p.env = (runH srcCfg (init srcCfg) hops).curEnv ∧
+      pickedHere srcCfg p.name p.env (init srcCfg) hops = true := by
+  refine ⟨envKnown_runH C37_source_shape.1 hops _ (inv_init C37_source_shape.1).envKnown, ?_⟩
+  intro p hp
+  obtain ⟨hptr, hmem, henv⟩ := active_some hp
+  refine ⟨hmem, henv, ?_⟩
+  rcases ptr_since C37_source_shape.1 hops _ hf p.name hptr with h | ⟨h, _⟩
+  · rw [henv]; exact h
+  · simp [init] at h
+
+/-- non-vacuity: a history with stale bindings on the non-picking operations (a `b`-bound
+service deletes and updates `b`'s profiles while the default environment is current) satisfies
+the guard, and a profile is active at the end. -/
+example : FreshPicks srcCfg (init srcCfg)
+      [⟨none, .createToken "p1" none⟩, ⟨none, .envAdd "http://b" false none⟩, ⟨none, .createToken "p2" (some "abc")⟩,
+       ⟨none, .envSwitch Gen.CliConfig.defaultUrl⟩, ⟨none, .select "default"⟩,
+       ⟨some "http://b", .setProject "abc****bc" "p9"⟩, ⟨some "http://b", .deleteProfile "abc****bc"⟩] ∧
+    (active (runH srcCfg (init srcCfg)
+      [⟨none, .createToken "p1" none⟩, ⟨none, .envAdd "http://b" false none⟩, ⟨none, .createToken "p2" (some "abc")⟩,
+       ⟨none, .envSwitch Gen.CliConfig.defaultUrl⟩, ⟨none, .select "default"⟩,
+       ⟨some "http://b", .setProject "abc****bc" "p9"⟩, ⟨some "http://b", .deleteProfile "abc****bc"⟩])).map (·.pid)
+      = some 0 := by
+  decide
